@@ -298,7 +298,7 @@ pub fn legal_in(pos: &Pos, m: Move) -> bool {
 /// Forced-mate and tiny-tree themes: KQK, KRK, KRRK ladder, back-rank, blocked pawns.
 pub fn mate_theme(t: &mut Tape) -> Option<Pos> {
     let mut p = Pos::empty();
-    let kind = t.pick(7);
+    let kind = t.pick(8);
     p.white_to_move = true;
     let free = |p: &Pos, t: &mut Tape| -> Option<u8> {
         let f: Vec<u8> = (0..64u8).filter(|s| p.board[*s as usize].is_none()).collect();
@@ -381,6 +381,32 @@ pub fn mate_theme(t: &mut Tape) -> Option<Pos> {
                     p.board[b as usize] = Some(Pc::new(false, Kind::P));
                 }
             }
+        }
+        7 => {
+            // a double pawn push that looks like mate: it gives check, every flight square is covered
+            // and the pawn is protected - but it can be taken en passant, and that is the only legal
+            // reply (8/8/R7/7k/5P1p/5K2/6P1/8 w and its reflections; sometimes the e.p. capturer is
+            // missing and the push really mates)
+            let flip = t.pick(2) == 0;
+            let f = |x: i32| if flip { 7 - x } else { x };
+            let sq = crate::refchess::sq;
+            p.board[sq(f(7), 4) as usize] = Some(Pc::new(false, Kind::K));
+            if t.pick(6) != 0 {
+                p.board[sq(f(7), 3) as usize] = Some(Pc::new(false, Kind::P));
+            } else {
+                p.board[sq(f(7), 3) as usize] = Some(Pc::new(true, Kind::N));
+            }
+            p.board[sq(f(5), 3) as usize] = Some(Pc::new(true, Kind::P));
+            p.board[sq(f(5), 2) as usize] = Some(Pc::new(true, Kind::K));
+            p.board[sq(f(6), 1) as usize] = Some(Pc::new(true, Kind::P));
+            p.board[sq(f(t.pick(4) as i32), 5) as usize] = Some(Pc::new(true, if t.pick(3) == 0 { Kind::Q } else { Kind::R }));
+            p.halfmove = 0;
+            p.fullmove = 1 + t.pick(60) as u32;
+            if t.pick(2) == 1 {
+                p = p.mirror();
+            }
+            p.validate().ok()?;
+            return Some(p);
         }
         _ => {
             // strong side to be mated: mirror of a major-piece ending with the weak side to move
